@@ -119,7 +119,7 @@ class GateReplacer(Visitor):
         return BlockStatement(
             parallel=block.parallel,
             subcircuit=block.subcircuit,
-            iterations=self.visit(block.iterations),
+            iterations=filter_float(self.visit(block.iterations)),
             statements=[self.visit(stmt) for stmt in block.statements],
         )
 
